@@ -5,7 +5,47 @@ from .. import gen, oracles, world
 from ._tree import make
 
 
+def mixed_formats(rng):
+    """files first recorded in DIFFERENT formats (generation 1 vs generation 2) renamed at the same time, -dr run in a third format"""
+    distinct = set()
+    tree = {}
+    for k in range(rng.choice([2, 3, 4])):
+        tree["old%d.bin" % k] = {"f": gen.gen_content(rng, distinct) or "a%d55" % k}
+    fa, fb, fc = rng.sample(gen.FORMATS, 3)
+    cur = copy.deepcopy(tree)
+    steps = [{"op": "create", "fmts": [fa]}]
+    for k in range(rng.choice([1, 2])):
+        e = {"op": "add", "path": "late%d.bin" % k, "data": gen.gen_content(rng, distinct) or "b%d66" % k}
+        steps.append(e)
+        cur = world.tree_apply(cur, e)
+    steps.append({"op": "create", "fmts": [fb]})
+    ren = {}
+    for old in sorted(gen.all_files(cur)):
+        if rng.random() < 0.8:
+            new = "moved_" + old
+            st = {"op": "rename", "path": old, "to": new}
+            steps.append(st)
+            cur = world.tree_apply(cur, st)
+            ren[old] = new
+    if not ren:
+        old = sorted(gen.all_files(cur))[0]
+        st = {"op": "rename", "path": old, "to": "moved_" + old}
+        steps.append(st)
+        cur = world.tree_apply(cur, st)
+        ren[old] = "moved_" + old
+    rnd = {"map": ren, "dr": True, "create": len(steps)}
+    steps.append({"op": "create", "fmts": [rng.choice([fa, fb, fc, fc])], "dr": True})
+    acc = []
+    for op in ["verify", "diff", "create"]:
+        acc.append(len(steps))
+        steps.append({"op": op, **({"fmts": [fc]} if op == "create" else {})})
+    rnd["accept"] = acc
+    return {"tree": tree, "steps": steps, "rounds": [rnd]}
+
+
 def scenario(rng, i):
+    if i % 6 == 4:
+        return mixed_formats(rng)
     distinct = set()
     tree = gen.gen_tree(rng, max_entries=12, max_depth=3, simple=(i % 2 == 0), distinct=distinct, ds_store=False)
     while len(gen.all_files(tree)) < 3:
@@ -86,7 +126,7 @@ def scenario(rng, i):
 
 RULE = ("trees with pairwise distinct non-empty contents; 1-3 rounds (a file may be renamed again in a later round) of 1-4 simultaneous file renames / moves between directories of one history (also into new folders, also keeping "
         "the base name) plus unrelated new files; each round is followed by create -dr (same or other formats) then verify / diff / create, optionally by altering a renamed "
-        "file and verify -- or by verify / diff / create WITHOUT -dr; oracle: exit codes, <previousPath> of every renamed file, nothing reported missing, old+new paths "
+        "file and verify -- or by verify / diff / create WITHOUT -dr; one scenario in six renames files first recorded in different formats (generations 1 and 2) at the same time and runs -dr in a third format; oracle: exit codes, <previousPath> of every renamed file, nothing reported missing, old+new paths "
         "reported without -dr. Non-trivial: at least one round with -dr and >= 2 renames or a second round.")
 check, replay = make("C17", oracles.oracle_c17, scenario, 60, 1500, RULE,
                      nontrivial=lambda scn, obs: any(r["dr"] and (len(r["map"]) >= 2) for r in scn["rounds"]) or len(scn["rounds"]) >= 2)
